@@ -28,6 +28,8 @@ type Proxy struct {
 	seq   int
 	Paths []string
 	Plan  func(seq int, path string) *Fault
+	// Discovery, when set, is what happens to the libp2p-HTTP discovery requests (/.well-known/libp2p/...) of this sync.
+	Discovery *Fault
 	// OnCancel is called for the "cancel" fault (the harness cancels the caller's context).
 	OnCancel func()
 	// Other returns the body of another valid block (for the "other" body class).
@@ -91,6 +93,11 @@ func closeQuietly(w http.ResponseWriter) {
 func (p *Proxy) handle(w http.ResponseWriter, r *http.Request) {
 	protocol := !strings.Contains(r.URL.Path, ".well-known")
 	var f *Fault
+	if !protocol {
+		p.mu.Lock()
+		f = p.Discovery
+		p.mu.Unlock()
+	}
 	if protocol {
 		p.mu.Lock()
 		p.seq++
